@@ -54,6 +54,8 @@ def next_record(sim):
         name = g.r.choice(list(w.actors))
         kind = w.actors[name].kind
         spec = g.r.choice(HOLD_SPECS_D if kind == "DH" else HOLD_SPECS_U)
+        if g.r.random() < 0.5:
+            spec = random_spec(g.r, kind)
         return {"uid": g.next_uid(), "op": "hold", "actor": name, "spec": spec, "slot": g.r.randrange(4)}
     return None
 
@@ -244,11 +246,36 @@ def after_step(sim, rec):
         check_holds(sim, w, rec, act)
 
 
+def random_spec(r, kind):
+    """a stat with scheduler-drawn arguments (all combinations of order / weight / degree / missing)"""
+    side = r.choice(["nodes", "edges"])
+    if side == "nodes":
+        name = r.choice(["degree", "degree", "in_degree", "out_degree"] if kind == "DH" else ["degree"])
+        if r.random() < 0.25:
+            key = r.choice(["color", "w", "weight", "tag", "label"])
+            return f"nodes.attrs({key})" if r.random() < 0.5 else f"nodes.attrs({key},{r.choice([0, 1, 7])})"
+        args = []
+        o = r.choice([None, 0, 1, 2, 3])
+        wt = r.choice([None, None, "w", "weight"])
+        if o is not None:
+            args.append(f"order={o}")
+        if wt is not None:
+            args.append(f"weight={wt}")
+        return f"nodes.{name}" + (f"({','.join(args)})" if args else "")
+    names = ["size", "order", "head_size", "tail_size", "head_order", "tail_order"] if kind == "DH" else ["size", "order"]
+    if r.random() < 0.25:
+        key = r.choice(["color", "w", "weight", "tag"])
+        return f"edges.attrs({key})" if r.random() < 0.5 else f"edges.attrs({key},{r.choice([0, 1, 7])})"
+    name = r.choice(names)
+    d = r.choice([None, None, 0, 1, 2, 3])
+    return f"edges.{name}" + (f"(degree={d})" if d is not None else "")
+
+
 def fam_stats(sim, w, rec, act, r):
-    m = act.model
-    specs = HOLD_SPECS_D if act.kind == "DH" else HOLD_SPECS_U
-    for spec in r.sample([s for s in specs if "." in s and "multi" not in s], 3):
-        eval_spec(w, rec, act, spec, act.sut)
+    for _ in range(4):
+        eval_spec(w, rec, act, random_spec(r, act.kind), act.sut)
+        if w.findings:
+            return
 
 
 def eval_spec(w, rec, act, spec, obj_or_stat, held=False):
@@ -562,10 +589,10 @@ def do_hold(sim, rec):
     if act is None:
         return None
     spec = rec["spec"]
-    if (act.kind == "DH") != (spec in HOLD_SPECS_D and spec not in HOLD_SPECS_U) and spec not in HOLD_SPECS_U + HOLD_SPECS_D:
-        return rec["actor"]
     specs = HOLD_SPECS_D if act.kind == "DH" else HOLD_SPECS_U
-    if spec not in specs:
+    if spec not in specs and ("multi" in spec or spec in ("nodes", "edges")):
+        return rec["actor"]
+    if act.kind != "DH" and any(x in spec for x in ("in_degree", "out_degree", "head_", "tail_")):
         return rec["actor"]
     try:
         with warnings.catch_warnings():
